@@ -101,21 +101,15 @@ func (data *Data) Deserialize(fr *FrameHeader) error {
 }
 
 func (data *Data) Serialize(fr *FrameHeader) {
-	// TODO: generate hasPadding and set to the frame payload
-	if data.endStream {
-		fr.SetFlags(
-			fr.Flags().Add(FlagEndStream))
-	}
-
-	if data.hasPadding {
-		fr.SetFlags(
-			fr.Flags().Add(FlagPadded))
-		data.b = http2utils.AddPadding(data.b)
-	} else {
-		// A frame that was parsed keeps the flags it arrived with, and its
-		// padding has been cut: PADDED must not survive into what is written.
-		fr.SetFlags(fr.Flags() &^ FlagPadded)
-	}
+	fr.SetFlags(fr.Flags().
+		with(FlagEndStream, data.endStream).
+		with(FlagPadded, data.hasPadding))
 
 	fr.setPayload(data.b)
+
+	// The padding is added to what is written, not to the data: a frame that
+	// is written twice carries the same data twice.
+	if data.hasPadding {
+		fr.payload = http2utils.AddPadding(fr.payload)
+	}
 }
